@@ -400,7 +400,8 @@ decode_bits (const int64_t *a, int n, bits_geom_t *g)
      * faults, not about huge images */
     while ((int64_t)g->w * g->h * bpp / 8 > (4 << 20)) { if (g->h > 1) g->h = (g->h + 1) / 2; else g->w /= 2; }
     minstride = (int)((((int64_t)g->w * bpp + 31) / 32) * 4);
-    g->stride = minstride + 4 * (int)sim_clamp (A (4), 0, 4);
+    /* row padding; 128-bpp images must keep rows 16-byte aligned (API precondition) */
+    g->stride = minstride + (bpp == 128 ? 16 : 4) * (int)sim_clamp (A (4), 0, 4);
     g->neg = (int)sim_mod (A (5), 2);
     g->misalign = (unsigned)(sim_mod (A (6), 16) * 4);
     g->flags = (int)sim_mod (A (7), 16);
